@@ -22,18 +22,9 @@ def check(run: Run) -> None:
     run.rule("C13.R3", "a command that skips work by hash does not acknowledge a page while its write-back event is still pending")
     run.rule("C13.R4", "write-back: page write, then hash refresh; no other external effect (in particular no glob-visible temporary file)")
     run.rule("C13.R5", "sessions roll back on exit; the database is committed only at the enumerated sites")
-    fi = model.func(f"{ZM}.ZIDManager.get_next")
-    n = 0
-    for p in enum_paths(fi.node):
-        r = first_index(p, lambda x: isinstance(x, ast.Return))
-        if r < 0:
-            continue
-        n += 1
-        w = [i for i, e in enumerate(p.events[:r]) if e[0] == "stmt" and any(tag == "FILE_WRITE:NEXTIDS" for _, tag, _ in eff.node_tags(fi, e[1]))]
-        a = first_index(p, is_call_to("_get_next_id"))
-        run.check("C13.R1", "the advanced next-id map is on disk before the ZID is handed out", bool(w) and a >= 0 and max(w) > a, "ZIDManager.get_next", "return before persisting",
-                  "get_next can return a ZID before next_ids.json holds its successor: after a crash the same ZID is handed out again", file="src/zorg/storage/sql/_zid_manager.py", node=fi.node)
-    run.floor("returning paths of get_next", n, 1)
+    from .c07 import persistence_scenarios
+
+    persistence_scenarios(run, model, "C13.R1")
     run.rule("C13.R6", "redo is idempotent: every processed page is removed from the index before it is added (also pages that look new), and only reindex depends on the content of file_hash.json")
     reindex_rules(run, model, dict(order="C13.R6", ack="C13.R2", recover="C13.R6"))
     writeback_rules(run, model, "C13.R2")
